@@ -13,9 +13,30 @@ def labels_of(name: str):
     return [l.encode("utf-8") for l in name.split(".")]
 
 
-def name_tok(name: str) -> str:
+def name_tok_labels(name: str) -> str:
+    """label-list token: the harness splits and encodes (the old way; kept for names that are not text)"""
     ls = labels_of(name)
     return ".".join(C.hx(l) for l in ls)
+
+
+def name_tok(name: str) -> str:
+    """text token `=<hex of the UTF-8 of the str>`: the *model* strips the trailing dot, splits at dots and encodes each
+    label (Zc.NameText.labelsOfText) -- the harness no longer does write_name's text work for the model"""
+    try:
+        return "=" + C.hx(name.encode("utf-8"))
+    except UnicodeEncodeError:
+        return name_tok_labels(name)  # a lone surrogate is not text; the builder raises on it anyway
+
+
+def canonical(name: str) -> str:
+    """the spelling _read_name gives back: exactly one trailing dot"""
+    return (name[:-1] if name.endswith(".") else name) + "."
+
+
+def text_of_tok(tok: str) -> str:
+    """a `=<hex>` token of the driver back to a str"""
+    assert tok.startswith("="), tok
+    return C_unhex(tok[1:]).decode("utf-8")
 
 
 def wname_tok(labels) -> str:
@@ -105,6 +126,20 @@ class Ent:
         else:
             w = ("n", tuple(labels_of(rd[0])), tuple(sorted(set(rd[1]))))
         return ("r", tuple(labels_of(self.name)), self.type, cls, ttl, w)
+
+    def expect_text(self, multicast):
+        """what must come back, names as the *strings* handed to the builder (with one trailing dot)"""
+        e = self.expect(multicast)
+        if self.kind == "q":
+            return ("q", canonical(self.name), e[2], e[3])
+        rd, k, w = self.rd, self.kind, e[5]
+        if k == "p":
+            w = ("p", canonical(rd[0]))
+        elif k == "s":
+            w = ("s", rd[0], rd[1], rd[2], canonical(rd[3]))
+        elif k == "n":
+            w = ("n", canonical(rd[0]), w[2])
+        return ("r", canonical(self.name), e[2], e[3], e[4], w)
 
     def labels(self):
         out = list(labels_of(self.name))
@@ -240,26 +275,37 @@ class GenMsg:
         return ([q.expect(mc) for q in self.qs], [r.expect(mc) for r in self.accepted_answers()],
                 [r.expect(mc) for r in self.au], [r.expect(mc) for r in self.ad])
 
+    def expect_text(self):
+        mc = self.multicast
+        return ([q.expect_text(mc) for q in self.qs], [r.expect_text(mc) for r in self.accepted_answers()],
+                [r.expect_text(mc) for r in self.au], [r.expect_text(mc) for r in self.ad])
+
     def entries(self):
         return self.qs + self.an + self.au + self.ad
 
     def in_quantifier(self):
         return 0 <= self.flags < 65536 and 0 <= self.id < 65536 and all(e.in_quantifier() for e in self.entries())
 
+    def handed_to_builder(self):
+        """an answer that is already expired at its `now` is dropped by add_answer_at_time: the builder never sees its names"""
+        return self.qs + self.accepted_answers() + self.au + self.ad
+
     def max_label(self):
-        return max((len(l) for e in self.entries() for l in e.labels()), default=0)
+        return max((len(l) for e in self.handed_to_builder() for l in e.labels()), default=0)
 
     def max_wire_len(self):
-        return max((e.max_wire_len() for e in self.entries()), default=0)
+        return max((e.max_wire_len() for e in self.handed_to_builder()), default=0)
 
     def describe(self):
         return {"flags": self.flags, "id": self.id, "multicast": self.multicast, "line": self.tok()}
 
 
-def parse_wmsg(line):
-    """parse `WMsg.toLine` into (id, flags, [q], [an], [au], [ad]) of canonical tuples"""
+def parse_wmsg(line, text=False):
+    """parse `WMsg.toLine` into (id, flags, [q], [an], [au], [ad]) of canonical tuples; with `text`, the line is the
+    driver's `stricttext` view: every name is the token `=<hex>` of the str the decoder shows, and stays a str"""
     t = line.split()
     pos = [0]
+    wn = text_of_tok if text else (lambda tok: tuple(parse_wname(tok)))
 
     def nx():
         pos[0] += 1
@@ -270,16 +316,16 @@ def parse_wmsg(line):
         if k == "a":
             return ("a", C_unhex(nx()))
         if k == "p":
-            return ("p", tuple(parse_wname(nx())))
+            return ("p", wn(nx()))
         if k == "t":
             return ("t", C_unhex(nx()))
         if k == "s":
             p, w, q = int(nx()), int(nx()), int(nx())
-            return ("s", p, w, q, tuple(parse_wname(nx())))
+            return ("s", p, w, q, wn(nx()))
         if k == "h":
             return ("h", C_unhex(nx()), C_unhex(nx()))
         if k == "n":
-            n = tuple(parse_wname(nx()))
+            n = wn(nx())
             ts = nx()
             return ("n", n, tuple(int(x) for x in ts.split(",")) if ts != "-" else ())
         if k == "o":
@@ -289,13 +335,13 @@ def parse_wmsg(line):
     mid, flags = int(nx()), int(nx())
     qs = []
     for _ in range(int(nx())):
-        n = tuple(parse_wname(nx()))
+        n = wn(nx())
         qs.append(("q", n, int(nx()), int(nx())))
     secs = []
     for _ in range(3):
         s = []
         for _ in range(int(nx())):
-            n = tuple(parse_wname(nx()))
+            n = wn(nx())
             ty, cl, ttl = int(nx()), int(nx()), int(nx())
             s.append(("r", n, ty, cl, ttl, rdata()))
         secs.append(s)
@@ -328,6 +374,25 @@ def lib_record_tuple(r):
     return ("r", tuple(labels_of(r.name)), r.type, cls, int(r.ttl), w)
 
 
+def lib_record_tuple_text(r):
+    """canonical tuple of a record decoded by the library, names as the strs the library shows"""
+    t = lib_record_tuple(r)
+    from zeroconf import _dns as d
+
+    w = t[5]
+    if isinstance(r, d.DNSPointer):
+        w = ("p", r.alias)
+    elif isinstance(r, d.DNSService):
+        w = ("s", r.priority, r.weight, r.port, r.server)
+    elif isinstance(r, d.DNSNsec):
+        w = ("n", r.next_name, w[2])
+    return ("r", r.name, t[2], t[3], t[4], w)
+
+
+def lib_question_tuple_text(q):
+    return ("q", q.name, q.type, q.class_ | (0x8000 if q.unique else 0))
+
+
 def lib_question_tuple(q):
     return ("q", tuple(labels_of(q.name)), q.type, q.class_ | (0x8000 if q.unique else 0))
 
@@ -343,15 +408,30 @@ class Gen:
         r = rng
         # a vocabulary of labels with shared suffixes, case variants, non-ASCII, boundary lengths
         self.types = ["_http._tcp.local.", "_HTTP._tcp.local.", "_x._udp.local.", "_printer._sub._http._tcp.local.", "local."]
-        base = ["foo", "Foo", "FOO", "bar", "My Service", "é日本", "a", "x" * 62, "y" * 63, "é" * 31, "ü" * 31 + "z", "b-1", "7"]
+        # "\ufffd": text that contains U+FFFD (what 'replace' decoding leaves behind) is ordinary text for the encoder
+        base = ["foo", "Foo", "FOO", "bar", "My Service", "é日本", "a", "x" * 62, "y" * 63, "é" * 31, "ü" * 31 + "z", "b-1", "7",
+                "\ufffd", "a\ufffdb", "\ufffd" * 21, "\U0001f600x"]
         if malformed:
             base += ["z" * 64, "w" * 65, "v" * 100, "u" * 300, "é" * 32, ""]
         self.labels = base
         self.hosts = ["host.local.", "Host.local.", "other-host.local.", "h" * 63 + ".local.", "日本.local."]
+        # text-layer corner cases of write_name (outside the quantifier; byte-exact differential only): the empty string and
+        # '.' (both the label list [''], written 00 00), empty labels in the middle / in front, two trailing dots (only one
+        # is dropped), a name without trailing dot
+        self.odd_names = ["", ".", "..", "a..b", ".a", "a.b..", "a.b", "local", "é..", "x." * 5]
+        self.nodot = False  # set per message: some of its names are spelled without the trailing dot
 
     def name(self):
+        n = self.name_()
+        if self.nodot and n.endswith(".") and self.rng.random() < 0.3:
+            return n[:-1]  # write_name treats 'a.local' like 'a.local.'; the decoder returns 'a.local.'
+        return n
+
+    def name_(self):
         r = self.rng
         k = r.random()
+        if self.malformed and k > 0.93:
+            return r.choice(self.odd_names)
         if k < 0.15:
             return r.choice(self.types)
         if k < 0.3:
@@ -428,6 +508,7 @@ class Gen:
 
     def message(self, size_class=None):
         r = self.rng
+        self.nodot = r.random() < (0.3 if self.malformed else 0.04)
         query = r.random() < 0.4
         # a TC bit given by the caller (0x0200) is transmitted as given
         flags = r.choice([0, 0, 0x0400, 0x0200]) if query else r.choice([0x8400, 0x8400, 0x8000, 0x8600])
